@@ -604,6 +604,8 @@ def gen_long(rng):
     after the first 2^14 only take low values, so any evaluation in row blocks sees other maxima / means there)"""
     import corr_C12 as t12
     c = t12.gen_long_frame(rng)
+    while 'f' not in c['cols']:                  # the one-column variant (C12's generator also has a two-column one)
+        c = t12.gen_long_frame(rng)
     n = rng.choice([33000, 40000, 70000])
     col = c['cols']['f']
     low = sorted(set(col[2 ** 14:]), key=float)
